@@ -441,4 +441,26 @@ CHECKS = {
              "thorough": {"checks": 600, "shards": 16, "timeout": 3400}},
         ],
     },
+    "C09": {
+        "level": "exploration",
+        "level_text": ("Dial side, in process: a real QUIC listener on this host (reachable under several local addresses: loopback v4/v6 "
+                       "and the interface addresses) records every server-side connection and when it ends. Candidate lists are "
+                       "generated: 1-5 reachable addresses of that one listener in drawn order, plus unreachable (closed port, black "
+                       "hole), duplicate, relay-prefixed and malformed entries. The completion order of the parallel handshakes is a "
+                       "generated value: hook ice.probe.dialed holds every attempt except the drawn first one until hook "
+                       "ice.probe.returning has fired (the caller has taken the winner), so 'a second handshake completes after the "
+                       "winner was taken, before cancellation' is produced on purpose; unforced runs rely on natural timing. Oracle: "
+                       "ProbeAndDial returns one live connection (identified on the listener by a nonce), and 500 ms later that "
+                       "connection is the ONLY one still open on the listener."),
+        "level_note": "quic-go internals are not scheduled by the harness; the accept side lives in snapshotReceiver.runTransfer (ends in os.Exit) and is observable only through the real binaries - not decided by this check, see DESIGN.md.",
+        "technique": "property-based testing (rapid) of the real prober against a real QUIC listener with hook-forced completion orders; invariant on the set of connections left open",
+        "rule": ("case = candidate list x first completer x forced/natural order; non-trivial = >= 2 reachable candidates and >= 2 "
+                 "handshakes completed on the listener; distinct by counts, forcing and extra-candidate kinds."),
+        "assumptions": ["500 ms grace suffices for CONNECTION_CLOSE of losers on loopback"],
+        "units": [
+            {"name": "ice", "pkg": "./internal/ice", "run": "^TestVerifC09",
+             "quick": {"checks": 12, "shards": 8, "timeout": 900},
+             "thorough": {"checks": 120, "shards": 16, "timeout": 3400}},
+        ],
+    },
 }
